@@ -525,21 +525,4 @@ Definition ex_q_text : text :=
   bs "swh:1:cnt:" ++ ex_hex ++ bs ";origin=https://e.org/a%3Bb%25c%20d;visit=swh:1:snp:" ++ ex_hex
   ++ bs ";anchor=swh:1:rev:" ++ ex_hex ++ bs ";path=/%00%FF%3Bx%20y;lines=5-10".
 
-Example print_ex : print_q 4300 ex_q = Ok ex_q_text.
-Proof. vm_compute. reflexivity. Qed.
-Example parse_ex : parse_q 4300 ex_q_text = Ok ex_q.
-Proof. vm_compute. reflexivity. Qed.
-Example lang_ex : lang_q ex_q_text = true.
-Proof. vm_compute. reflexivity. Qed.
-Example parse_core_ex : parse_core (bs "swh:1:dir:" ++ ex_hex) = Ok (mkCore (bs "dir") ex_oid)
-  /\ parse_core (bs "swh:1:ori:" ++ ex_hex) = Err EValidation
-  /\ parse_ext (bs "swh:1:ori:" ++ ex_hex) = Ok (mkCore (bs "ori") ex_oid)
-  /\ parse_core (bs "swh:1:dir:" ++ ex_hex ++ bs ";lines=1") = Err EValidation.
-Proof. vm_compute. repeat split. Qed.
 (* last key wins; an earlier malformed duplicate is not looked at *)
-Example dup_ex : exists v, parse_q 4300 (bs "swh:1:cnt:" ++ ex_hex ++ bs ";lines=x;lines=3") = Ok v
-                           /\ q_lines v = Some (3%Z, None).
-Proof. eexists. vm_compute. split; reflexivity. Qed.
-Example old_lines_ex : parse_lines_old 4300 (bs "+1") = Ok (1%Z, None)
-                       /\ parse_lines 4300 (bs "+1") = Err EValidation.
-Proof. vm_compute. split; reflexivity. Qed.
